@@ -19,8 +19,15 @@ def run_bin(cfg: dict, prefix: list[int]) -> dict:
     args = [str(rustbuild.PMAP_BIN), str(cfg["n"]), str(cfg["T"]),
             str(cfg.get("d", -1)), str(cfg.get("p", -1)),
             ",".join(map(str, prefix))]
+    import os
+    env = dict(os.environ)
+    if cfg.get("hold"):
+        # base schedule "slow partners": every release is held back so that
+        # waits with a shorter time-out in the code under test expire first
+        env["PMAP_HOLD_MS"] = str(cfg["hold"])
     for attempt in range(3):
-        r = subprocess.run(args, capture_output=True, text=True, timeout=120)
+        r = subprocess.run(args, capture_output=True, text=True, timeout=300,
+                           env=env)
         line = r.stdout.strip().splitlines()[-1] if r.stdout.strip() else ""
         try:
             out = json.loads(line)
